@@ -236,21 +236,33 @@ def fold(s):
     return "".join(chr(ord(c) + 32) if "A" <= c <= "Z" else c for c in s)
 
 
+LINE_ANCHORS = False        # set by stage() from translate/gen_ure.py: ure_exec has fixes/C17-line-anchors.diff
+
+
 def expected(pat, cf, flags, text):
     """leftmost-longest non-empty match of the contract -> (ms, me) | None"""
     dot = bool(flags & 2)
     pyre = re.compile(pat.body.py(dot), re.IGNORECASE if cf else 0)
     n = len(text)
-    if (pat.bol and flags & 4) or (pat.eol and flags & 8):
+    nobol0 = noeoln = False
+    if LINE_ANCHORS:
+        # repaired: URE_NOTBOL = the text does not begin at a line start, URE_NOTEOL = it does not end at a line end;
+        # the separators inside the text keep their meaning
+        nobol0, noeoln = bool(pat.bol and flags & 4), bool(pat.eol and flags & 8)
+    elif (pat.bol and flags & 4) or (pat.eol and flags & 8):
         return None             # ure_exec: URE_NOTBOL / URE_NOTEOL switch the anchor off everywhere in the text
     # an empty match only where an anchor carries it (`b*$`); a pattern that matches the empty string by itself is
     # judged on its non-empty matches (ure_exec never reports an empty match for those: W_NULLABLE)
     empty_ok = pat.body.nullable() and (pat.bol or pat.eol)
     # (an empty match at the very end of the text is only reached by `^` behind a final separator: the loop needs a
     # character)
-    for ms in range(n + 1 if empty_ok and pat.bol and n > 0 else n):
+    # repaired shape: `^` is a test in front of a CHARACTER; the position behind the last character is never examined, so
+    # the "empty line" behind a final separator does not exist (search.c ends every row with a separator)
+    for ms in range(n + 1 if empty_ok and pat.bol and n > 0 and not LINE_ANCHORS else n):
         if pat.bol and ms > 0 and (text[ms - 1] not in SEPS or text[ms - 1:ms + 1] == "\r\n"): continue   # CR LF = one separator
+        if nobol0 and ms == 0: continue
         for me in range(n, ms - 1 if empty_ok else ms, -1):
+            if noeoln and me == n: continue
             if pat.eol and me < n and (text[me] not in SEPS or (me > 0 and text[me - 1:me + 1] == "\r\n")): continue
             if pyre.fullmatch(text, ms, me) if not _needs_slice(pat) else pyre.fullmatch(text[ms:me]):
                 return (ms, me)
@@ -364,11 +376,11 @@ def judge(case, out, meta, shp):
         if not shp["eot_restart"] and got is None and exp is not None and not (pat.bol or pat.eol) and \
                 runs_to_end(dump, text, cf, exp[0]):
             return W_EOT
-        if pat.eol and exp is not None and got is not None and got[0] == exp[0] and got[1] == exp[1] + 1 == len(text):
+        if not shp["line_anchors"] and pat.eol and exp is not None and got is not None and got[0] == exp[0] and got[1] == exp[1] + 1 == len(text):
             return W_EOLEND
-        if pat.eol and (flags & 8) and got is not None and got[1] == len(text):
+        if not shp["line_anchors"] and pat.eol and (flags & 8) and got is not None and got[1] == len(text):
             return W_EOLEND
-        if pat.bol and exp is not None and exp[0] >= 1 and (exp[0] == 1 or text[exp[0] - 2] in SEPS) and \
+        if not shp["line_anchors"] and pat.bol and exp is not None and exp[0] >= 1 and (exp[0] == 1 or text[exp[0] - 2] in SEPS) and \
                 (got is None or got[0] > exp[0]):
             return W_BOLSKIP
         return "ure regular expression %s (casefold %d, flags %d): ure_exec says %s, leftmost-longest is %s in %s" % (
@@ -504,6 +516,8 @@ def stage(ctx, counts=None, only=None):
         shp = gen_ure.flags(verif.REPO)
     except SystemExit as ex:
         return [("ure: translator does not recognise src/ure.c: %s" % ex, [])]
+    global LINE_ANCHORS
+    LINE_ANCHORS = bool(shp.get("line_anchors"))
     exe, err = verif.build_harness("ure_harness", link_lib=False)
     if exe is None:
         return [("ure harness build failed: " + err[-400:], [])]
